@@ -1,14 +1,14 @@
 // gen_c20: translator for the validation half of property C20.  Reads the CURRENT tree under $VERIF_REPO
 // (default /repo) with go/ast and writes coq/gen/Gen_MsgFields.v:
 //
-//   gen_types          every struct type in x/*/types and types/ that (a) is a message (name starts with Msg),
-//                      (b) has a ValidateBasic()/Validate() method, or (c) is a precompile argument struct (*Args):
-//                      its field list (name, Go type, nil-ability kind) and the name of its validator ("" if none)
-//   gen_panic_sites    every panic( / Must*( call inside a method or function of those packages whose name is
-//                      ValidateBasic, Validate, validateBasic, GetSigners, GetSignBytes, Get*/Must*/Is* (accessor
-//                      style, value or pointer receiver) — the places where attacker-controlled text meets a panic
-//   gen_precompile_methods   (contract, ABI method name) for every abi method a precompile method struct binds
-//   gen_ante_decorators      the decorator constructor calls of ante/handler_options.go:newCosmosAnteHandler, in order
+//	gen_types          every struct type in x/*/types and types/ that (a) is a message (name starts with Msg),
+//	                   (b) has a ValidateBasic()/Validate() method, or (c) is a precompile argument struct (*Args):
+//	                   its field list (name, Go type, nil-ability kind) and the name of its validator ("" if none)
+//	gen_panic_sites    every panic( / Must*( call inside a method or function of those packages whose name is
+//	                   ValidateBasic, Validate, validateBasic, GetSigners, GetSignBytes, Get*/Must*/Is* (accessor
+//	                   style, value or pointer receiver) — the places where attacker-controlled text meets a panic
+//	gen_precompile_methods   (contract, ABI method name) for every abi method a precompile method struct binds
+//	gen_ante_decorators      the decorator constructor calls of ante/handler_options.go:newCosmosAnteHandler, in order
 //
 // The finite obligations over these lists are in coq/proofs/P_ValidateGen.v. Fails loudly when a shape is gone.
 package main
